@@ -405,6 +405,27 @@ Proof.
   eapply described_same_claim_external; eauto. split; auto.
 Qed.
 
+(* ---------------------------------------------------------------- spelled out *)
+Lemma decomposes_to_meaning fuel c w problems :
+  decomposes_to fuel c w problems <->
+  match v_equivalence c with
+  | Strong => w = [] /\ exists t, strong_task_described c t /\ strong_decompose_full_fuel fuel t = SOk problems
+  | External => exists t, external_task_described c t /\ external_decompose_full fuel t = XOk w problems
+  end.
+Proof. reflexivity. Qed.
+
+Lemma strong_task_flags c t : strong_task_described c t ->
+  st_simplify t = negb (v_no_simplify c) /\ st_break t = negb (v_no_eq_break c) /\
+  st_decomposition t = v_decomposition c /\ st_direction t = v_direction c /\
+  st_repr t = v_formula_representation c.
+Proof. intros [l [r [_ [_ ->]]]]. cbn. auto. Qed.
+
+Lemma external_task_flags c t : external_task_described c t ->
+  et_simplify t = negb (v_no_simplify c) /\ et_break t = negb (v_no_eq_break c) /\
+  et_decomposition t = v_decomposition c /\ et_direction t = v_direction c /\
+  et_repr t = v_formula_representation c /\ et_bypass_tightness t = v_bypass_tightness c.
+Proof. intros [sp [p [u [o [_ [_ [_ [_ ->]]]]]]]]. cbn. repeat split. Qed.
+
 (* ---------------------------------------------------------------- the fuel *)
 Lemma problems_of_fuel_mono n c x :
   problems_of read n c = x -> x <> VStop VOutOfFuel -> forall m, n <= m -> problems_of read m c = x.
